@@ -41,6 +41,91 @@ Theorem C04_coeff_bits_trailing_zeros : forall cs (len : nat),
   read_coeffs (length cs) (block_bits len cs) = cs.
 Proof. exact coeff_bits_trailing_zeros. Qed.
 
+(* gathering (transform_and_slice_picture) and scattering (decoder slice_band) are inverse:
+   for every component, every list of subbands whose arrays have the shapes the decoder
+   allocates, every slice grid (C13 partition: Proofs/SliceSizesProofs.v cover_unique_x/y) *)
+Theorem C04_gather_scatter : forall st comp bands,
+  good_state st ->
+  Forall (fun s => 0 <= sb_level s <= depth_sum st + 1) bands ->
+  Forall (shape_ok st comp) bands ->
+  scatter_all st comp (init_bands st comp (map (fun s => (sb_level s, sb_qm s)) bands))
+    (map (fun sy => map (fun sx => fst (gather_component st comp bands sx sy)) (EncoderSlices.zrange 0 (st_slices_x st)))
+         (EncoderSlices.zrange 0 (st_slices_y st)))
+  = bands.
+Proof. exact gather_scatter. Qed.
+
+(* one slice through the wire with qindex 0: HQ slice of the lossless packer (any scaler),
+   HQ / LD slice of the lossy search (facts hq_slice_ok / ld_slice_ok are C14's) *)
+Theorem C04_lossless_slice_roundtrip : forall s sc,
+  1 <= s -> cc_ok (sc_Y sc) -> cc_ok (sc_C1 sc) -> cc_ok (sc_C2 sc) ->
+  hq_slice_roundtrip s sc (lossless_slice s sc) = (fst (sc_Y sc), fst (sc_C1 sc), fst (sc_C2 sc)).
+Proof. exact lossless_slice_roundtrip. Qed.
+
+Theorem C04_lossless_packer_slices : forall rows mins,
+  let s := fst (make_transform_data_hq_lossless rows mins) in
+  1 <= s /\ snd (make_transform_data_hq_lossless rows mins) = map (lossless_slice s) (concat rows).
+Proof. exact lossless_packer_slices. Qed.
+
+(* ... whose length fields all fit their 8-bit fields, for any minimum_slice_size_scaler *)
+Theorem C04_lossless_fields_8bit : forall rows mins,
+  Forall (fun sl => 0 <= hq_y_length sl <= 255 /\ 0 <= hq_c1_length sl <= 255 /\ 0 <= hq_c2_length sl <= 255 /\ hq_qindex sl = 0)
+         (snd (make_transform_data_hq_lossless rows mins)).
+Proof. exact lossless_fields_8bit. Qed.
+
+Theorem C04_hq_lossy_q0_slice_roundtrip : forall st s minq sx sy sc sl,
+  0 < s -> cc_ok (sc_Y sc) -> cc_ok (sc_C1 sc) -> cc_ok (sc_C2 sc) ->
+  hq_slice_ok st s minq sx sy sc sl -> hq_qindex sl = 0 ->
+  hq_slice_roundtrip s sc sl = (fst (sc_Y sc), fst (sc_C1 sc), fst (sc_C2 sc)).
+Proof. exact hq_lossy_q0_roundtrip. Qed.
+
+Theorem C04_ld_q0_slice_roundtrip : forall st minq sx sy sc sl,
+  cc_ok (sc_Y sc) -> cc_ok (sc_C1 sc) -> cc_ok (sc_C2 sc) -> length (fst (sc_C1 sc)) = length (fst (sc_C2 sc)) ->
+  ld_slice_ok st minq sx sy sc sl -> ld_qindex sl = 0 ->
+  ld_slice_roundtrip (slice_bytes st sx sy) sc sl = (fst (sc_Y sc), fst (sc_C1 sc), fst (sc_C2 sc)).
+Proof. exact ld_q0_roundtrip. Qed.
+
+(* The composed chain.  `dwt` / `idwt` stand for picture_encode / picture_decode (padding,
+   wavelet transform, offset, clipping): their round trip is property C11's and enters ONLY as
+   the hypothesis idwt_dwt.  Everything between -- DC prediction, gathering into slices,
+   index 0 quantisation, length fields, exp-Golomb blocks with implicit trailing zeros,
+   reading, scattering, inverse DC prediction -- is proved.  The byte-level container
+   around the slices (parse info, headers, fragments) is not modelled here. *)
+Theorem C04_chain_hq_lossless :
+  forall (Pic : Type) (dwt : Pic -> list subband * list subband * list subband)
+         (idwt : list band * list band * list band -> Pic),
+  (forall p, idwt (map sb_band (fst (fst (dwt p))), map sb_band (snd (fst (dwt p))), map sb_band (snd (dwt p))) = p) ->
+  forall st, good_state st ->
+  forall p s, pic_wf Pic dwt st p -> pic_qm_ok Pic dwt p -> 1 <= s ->
+  decode_model Pic dwt idwt st p false
+    (fun sx sy => hq_slice_roundtrip s (encoder_slice Pic dwt st p false sx sy)
+                                     (lossless_slice s (encoder_slice Pic dwt st p false sx sy))) = p.
+Proof. exact chain_hq_lossless. Qed.
+
+Theorem C04_chain_hq_lossy_q0 :
+  forall (Pic : Type) (dwt : Pic -> list subband * list subband * list subband)
+         (idwt : list band * list band * list band -> Pic),
+  (forall p, idwt (map sb_band (fst (fst (dwt p))), map sb_band (snd (fst (dwt p))), map sb_band (snd (dwt p))) = p) ->
+  forall st, good_state st ->
+  forall p bst s minq (SL : Z -> Z -> hq_slice), pic_wf Pic dwt st p -> pic_qm_ok Pic dwt p -> 0 < s ->
+  (forall sx sy, 0 <= sx < st_slices_x st -> 0 <= sy < st_slices_y st ->
+     hq_slice_ok bst s minq sx sy (encoder_slice Pic dwt st p false sx sy) (SL sx sy) /\ hq_qindex (SL sx sy) = 0) ->
+  decode_model Pic dwt idwt st p false
+    (fun sx sy => hq_slice_roundtrip s (encoder_slice Pic dwt st p false sx sy) (SL sx sy)) = p.
+Proof. exact chain_hq_lossy_q0. Qed.
+
+Theorem C04_chain_ld_lossy_q0 :
+  forall (Pic : Type) (dwt : Pic -> list subband * list subband * list subband)
+         (idwt : list band * list band * list band -> Pic),
+  (forall p, idwt (map sb_band (fst (fst (dwt p))), map sb_band (snd (fst (dwt p))), map sb_band (snd (dwt p))) = p) ->
+  forall st, good_state st ->
+  forall p bst minq (SL : Z -> Z -> ld_slice), pic_wf Pic dwt st p -> pic_qm_ok Pic dwt p ->
+  map sb_level (snd (fst (dwt p))) = map sb_level (snd (dwt p)) ->
+  (forall sx sy, 0 <= sx < st_slices_x st -> 0 <= sy < st_slices_y st ->
+     ld_slice_ok bst minq sx sy (encoder_slice Pic dwt st p true sx sy) (SL sx sy) /\ ld_qindex (SL sx sy) = 0) ->
+  decode_model Pic dwt idwt st p true
+    (fun sx sy => ld_slice_roundtrip (slice_bytes bst sx sy) (encoder_slice Pic dwt st p true sx sy) (SL sx sy)) = p.
+Proof. exact chain_ld_lossy_q0. Qed.
+
 (* non-vacuity *)
 Example C04_example_dc :
   apply_dc_prediction [[10; 12; 9]; [11; 13; 8]] = [[10; 2; -3]; [1; 2; -3]] /\
@@ -52,3 +137,15 @@ Example C04_example_bits :
   block_bits 12 [5; -1; 0; 0] = [false; true; false; false; true; false;  false; false; true; true;  true; true] /\
   read_coeffs 4 (block_bits 10 [5; -1; 0; 0]) = [5; -1; 0; 0].
 Proof. vm_compute. repeat split; reflexivity. Qed.
+
+(* the chain's hypotheses are satisfiable: a 2x2 luma / 1x1 chroma "picture" that is its own
+   transform (depth 0), two slices side by side; evaluated end to end through the wire *)
+Example C04_example_chain :
+  let st := set_st_slices_y (set_st_slices_x (set_st_color_diff_height (set_st_color_diff_width
+              (set_st_luma_height (set_st_luma_width empty_pystate 2) 2) 1) 1) 2) 1 in
+  let yb := [(0, 0, [[7; -3]; [0; 250]])] in
+  let cb := [(0, 0, [[-9]])] in
+  decode_picture st (shape_of yb) (shape_of cb) (shape_of cb) false
+    (fun sx sy => hq_slice_roundtrip 1 (gathered st yb cb cb sx sy) (lossless_slice 1 (gathered st yb cb cb sx sy)))
+  = ([[[7; -3]; [0; 250]]], [[[-9]]], [[[-9]]]).
+Proof. vm_compute. reflexivity. Qed.
